@@ -82,6 +82,13 @@ def lift(py):
         return BoolV(py)
     if isinstance(py, int):
         return IntV(py)
+    if isinstance(py, float):
+        # T8: floats are treated as exact reals
+        from fractions import Fraction
+        fr = Fraction(repr(py)) if py == py and abs(py) != float('inf') else None
+        if fr is None:
+            return ConstV(py)
+        return IntV(z3.RealVal(str(fr)))
     if isinstance(py, (bytes, bytearray)):
         return SeqV(seq_lit(list(py)), 'bytes' if isinstance(py, bytes) else 'bytearray')
     if isinstance(py, tuple):
@@ -211,6 +218,11 @@ def arith(op, a, b):
             return IntV(x - y)
         if T is ast.Mult:
             return IntV(x * y)
+        if T is ast.Div:
+            # true division: a real (T8)
+            xr = x if x.sort() == z3.RealSort() else z3.ToReal(x)
+            yr = y if y.sort() == z3.RealSort() else z3.ToReal(y)
+            return IntV(xr / yr)
         if T is ast.FloorDiv:
             return IntV(py_floordiv(x, y))
         if T is ast.Mod:
